@@ -283,10 +283,17 @@ def enums_tie(pid, enums, scratch):
 
 # ---------------------------------------------------------------- findings
 def load_known():
-    p = os.path.join(VERIF, "known_findings.json")
-    if not os.path.exists(p):
-        return {"findings": [], "fixed": []}
-    return json.load(open(p))
+    out = {"findings": [], "fixed": []}
+    paths = [os.path.join(VERIF, "known_findings.json")]
+    d = os.path.join(VERIF, "known_findings.d")
+    if os.path.isdir(d):
+        paths += sorted(os.path.join(d, f) for f in os.listdir(d) if f.endswith(".json"))
+    for p in paths:
+        if os.path.exists(p):
+            j = json.load(open(p))
+            out["findings"] += j.get("findings", [])
+            out["fixed"] += j.get("fixed", [])
+    return out
 
 
 # ---------------------------------------------------------------- main check
